@@ -262,6 +262,10 @@ func typeHasString(t types.Type) bool {
 }
 
 func (x *Exec) canonString(st *State, s *Term, self bool) *Term {
+	if hasFreeBound(s) {
+		// under a quantifier: the axioms are added when an instance makes the term ground (registerCanonsIn)
+		return UF("str.canon", SStr, s)
+	}
 	for _, c := range x.canonStrs {
 		if c.orig == s || c.canon == s {
 			return c.canon
@@ -278,6 +282,27 @@ func (x *Exec) canonString(st *State, s *Term, self bool) *Term {
 	}
 	x.canonStrs = append(x.canonStrs, canonStr{orig: s, canon: c})
 	return c
+}
+
+// registerCanonsIn: ground applications of str.canon that appear in an instance of a quantified fact get their axioms.
+func (x *Exec) registerCanonsIn(st *State, t *Term) {
+	seen := map[int]bool{}
+	var walk func(t *Term)
+	walk = func(t *Term) {
+		if seen[t.id] || t.op == "forall" || t.op == "exists" {
+			return
+		}
+		seen[t.id] = true
+		for _, a := range t.args {
+			walk(a)
+		}
+		if t.op == "str.canon" && len(t.args) == 1 && !hasFreeBound(t) {
+			if c := x.canonString(st, t.args[0], false); c != t {
+				x.ctx.assumeGlobal(st, Eq(t, c)) // a literal (or iteration key) is its own representative
+			}
+		}
+	}
+	walk(t)
 }
 
 // mapKey returns the key term under which k is stored in / looked up from the SMT arrays of a map.
